@@ -782,7 +782,13 @@ where
                     }
                 }));
                 let blank = dec_json("0");
-                let row = match r {
+                // what the underlying type itself makes of the element (a non-keyword converts "as its underlying numeric type")
+                let under = match catch(std::panic::AssertUnwindSafe(|| T::try_from(t))) {
+                    Err(_) => json!({"k": "err", "code": 99999, "v": blank}),
+                    Ok(Ok(v)) => json!({"k": "ok", "code": 0, "v": dec_json(&v.show())}),
+                    Ok(Err(e)) => json!({"k": "err", "code": e.get_code(), "v": blank}),
+                };
+                let mut row = match r {
                     Err(_) => json!({"t": "nv", "ty": tyname, "kind": kind, "lit": bytes_json(lit_of(&t, lit)), "src": lossy(lit), "cfg": ci, "order": order,
                                      "variant": "panic", "tv": blank, "min": dec_json(&emin.show()), "max": dec_json(&emax.show()), "hasdef": def.is_some(),
                                      "def": blank, "final": {"k": "err", "code": 99999, "v": blank}}),
@@ -793,6 +799,7 @@ where
                                      "final": match fin { Ok(v) => json!({"k": "ok", "code": 0, "v": dec_json(&v.show())}),
                                                           Err(e) => json!({"k": "err", "code": e.get_code(), "v": blank}) }}),
                 };
+                row["under"] = under;
                 out.put(&row);
             }
         }
